@@ -222,7 +222,8 @@ class Ctx:
         gen: translated modules (py2coq.TARGETS keys) whose equivalence theorems this property relies on."""
         allowed = set(allowed_axioms)
         self.gen = list(gen)
-        equiv = {"unique_values": "Proofs/GenEquivUV", "data_preparation": "Proofs/GenEquivDP", "main_loop": "Proofs/GenEquivML"}
+        equiv = {"unique_values": "Proofs/GenEquivUV", "data_preparation": "Proofs/GenEquivDP", "main_loop": "Proofs/GenEquivML",
+                 "cluster_label_assignment": "Proofs/GenEquivLA", "solver": "Proofs/GenEquivSV", "cluster_metrics": "Proofs/GenEquivCM"}
         self.coq_deps = list(coq_deps) + [equiv[g] for g in self.gen]
         t_pl = time.time()
         try:
